@@ -137,12 +137,13 @@ type packageSection struct {
 	OtherFiles  []fileDigest     `yaml:"other_files,omitempty"`
 	EmbedFiles  []fileDigest     `yaml:"embed_files,omitempty"`
 	LinkFiles   []fileDigest     `yaml:"llgo_files,omitempty"`
+	LinkCFlags  []string         `yaml:"llgo_files_cflags,omitempty"`
 	RewriteVars orderedStringMap `yaml:"rewrite_vars,omitempty"`
 }
 
 func (s *packageSection) empty() bool {
 	return s.PkgPath == "" && s.PkgID == "" && len(s.GoFiles) == 0 && len(s.AltGoFiles) == 0 && len(s.OtherFiles) == 0 &&
-		len(s.EmbedFiles) == 0 && len(s.LinkFiles) == 0 && len(s.RewriteVars) == 0
+		len(s.EmbedFiles) == 0 && len(s.LinkFiles) == 0 && len(s.LinkCFlags) == 0 && len(s.RewriteVars) == 0
 }
 
 // manifestBuilder builds manifest text with sorted sections.
